@@ -431,6 +431,12 @@ class Gen:
             nids = rng.choice(known)
         ftype = rng.choice([0, 1, 1, 10, 255, 256, 65535])
         fver = rng.choice([0, 1, 2, 65535])
+        if rng.random() < 0.06:
+            # a type / version the 16-bit fields of the protocol cannot carry: not a firmware the gateway can offer
+            if rng.random() < 0.5:
+                ftype = rng.choice([65536, 70000, -1])
+            else:
+                fver = rng.choice([65536, 100000, -2])
         image_hex = None
         via = "bin"
         form = rng.randrange(10)
@@ -464,6 +470,8 @@ class Gen:
         image = bytes.fromhex(image_hex) if image_hex is not None else None
         if image == b"":
             return  # nothing loadable: no firmware, no session
+        if not (0 <= ti <= 0xFFFF and 0 <= vi <= 0xFFFF):
+            return  # not a firmware the protocol can offer
         done = self.model.ota.schedule(self.model.nodes, nids if not isinstance(nids, list) else list(nids), ti, vi, image)
         if image is not None and (ti, vi) not in self.fw_keys:
             self.fw_keys.append((ti, vi))
